@@ -113,6 +113,7 @@ pub fn main_loop<F: Fn(&[&str]) -> String + std::panic::RefUnwindSafe>(f: F) {
             }
         });
     }
+    let harness_pid = std::process::id();
     let mut seen = 0usize;
     for (i, l) in std::io::BufReader::new(file).lines().enumerate() {
         if i % nshard != shard {
@@ -127,6 +128,12 @@ pub fn main_loop<F: Fn(&[&str]) -> String + std::panic::RefUnwindSafe>(f: F) {
         let started = t0.elapsed().as_millis() as u64 + 1;
         tick.store(started, Ordering::SeqCst);
         let r = std::panic::catch_unwind(|| f(&fields));
+        // The code under test forks (command substitution, pipelines). A forked child normally execs or exits, but
+        // when the CHILD panics the unwinding ends here, in the child's copy of this loop: it must not go on with the
+        // rest of the case file nor write a result (duplicate lines would misalign the whole shard).
+        if std::process::id() != harness_pid {
+            unsafe { libc_exit(101) }
+        }
         if tick.compare_exchange(started, 0, Ordering::SeqCst, Ordering::SeqCst).is_err() {
             // the watchdog has claimed this case and is writing HANG: do not write a second answer
             loop {
